@@ -175,7 +175,7 @@ def writer(a):
     opts = tdgl.SolverOptions(solve_time=a["solve_time"], skip_time=a.get("skip_time", 0.0), dt_init=a.get("dt", 2.0 ** -6),
                               adaptive=a.get("adaptive", False), dt_max=a.get("dt_max", 0.1), save_every=a.get("k", 1),
                               output_file=a["out"], monitor=a.get("monitor", True), monitor_update_interval=0.001,
-                              progress_interval=10 ** 9, pause_on_interrupt=False, field_units="mT", current_units="uA",
+                              progress_interval=10 ** 9, pause_on_interrupt=a.get("pause", False), field_units="mT", current_units="uA",
                               include_screening=a.get("screening", False))
     kw = dict(applied_vector_potential=a.get("field", 0.4))
     cur = devices.balanced_currents(a.get("dev", "bar"), a.get("current", 3.0))
@@ -183,6 +183,21 @@ def writer(a):
         kw["terminal_currents"] = cur
     if a.get("dyn_eps"):
         kw["disorder_epsilon"] = lambda r, *, t: 1.0 - 0.1 * min(1.0, t)
+    if a.get("fault_at"):
+        # the run is stopped from inside: a cancellation (KeyboardInterrupt; through the pause prompt when the options
+        # say so) or an error in the update, at update call number fault_at
+        import builtins
+        from tdgl.solver.solver import TDGLSolver
+        orig_update = TDGLSolver.update
+        calls = {"n": 0}
+
+        def upd(self, *args, **kw2):
+            calls["n"] += 1
+            if calls["n"] == a["fault_at"]:
+                raise (KeyboardInterrupt() if a.get("fault_kind", "KI") == "KI" else RuntimeError("injected"))
+            return orig_update(self, *args, **kw2)
+        TDGLSolver.update = upd
+        builtins.input = lambda prompt="": "n"
     outcome = "returned"
     try:
         tdgl.solve(dev, opts, **kw)
